@@ -517,7 +517,7 @@ def per_record_purity(ctx, rule):
         key = "write:%s.%s" % (adt.rsplit("::", 1)[-1], f)
         if (adt, f) in allowed or adt.endswith("DistMatrix"):
             ctx.ok(rule, key, "-", "per-record path writes only reset-before-read scratch: %s.%s" % (adt, f), kind="S")
-        elif RS.value_never_leaves(ctx, [facts.bodies[x] for x in ctx.cg.reachable(roots) if x in facts.bodies],
+        elif RS.value_never_leaves(ctx, None,
                                    lambda e, adt=adt, f=f: isinstance(e, tuple) and len(e) > 3 and e[0] == "field" and str(e[2]) == f and e[3] == adt)[0]:
             ctx.ok(rule, key, "-", "%s.%s is diagnostic state (written, or read only to update itself): no verdict depends on it" % (adt, f),
                    nontrivial=True, kind="S")
